@@ -1156,6 +1156,6 @@ META = dict(
         "concatenated exactly once into a table whose column names match the tuple positions; note lines have the "
         "shape '#' + 3-digit measure + channel + ':' + 2-character slots the reader slices, header lines '#KEY value'; "
         "the writer's timing map is built from every tempo point and the slot formula has the format's shape. Stated-belief rule "
-        "(R11): every 'encode unless already bytes' in the BMS module tests, converts and passes through one and the same value."),
+        "(R11): every 'encode unless already bytes' in the BMS module tests, converts and passes through one and the same value. The measure-length channel (02) is written as metronome / K and read back as value * K with the same K (R12)."),
     not_decided="find_lcm, the 1/192 snapping bound, base-36 text of ids beyond the shape, '.3f' tempo text, collisions in one slot (outside the domain)",
 )
